@@ -927,3 +927,141 @@ Section KeyValProofs.
     - split; [discriminate | intros (parts' & po & A & _); discriminate].
   Qed.
 End KeyValProofs.
+
+(** * Children are opaque: splitting commutes with any change of the inside of
+    non-chars nodes *)
+Section Opaque.
+  Variable f : node -> node.
+  Hypothesis f_chars : forall p e md c, f (NChars p e md c) = NChars p e md c.
+  (** [f] keeps the class of a node as far as the loop can see it *)
+  Hypothesis f_kind : forall n,
+    match n with
+    | NChars _ _ _ _ => True
+    | NList _ _ _ => match f n with NList _ _ _ => True | _ => False end
+    | _ => match f n with NChars _ _ _ _ | NList _ _ _ => False | _ => True end
+    end.
+  Hypothesis f_pos : forall n, node_pos (f n) = node_pos n.
+  Hypothesis f_end : forall n, node_end (f n) = node_end n.
+
+  Variable m : matcher.
+  Variable ms : option nat.
+  Variable keep skipnone : bool.
+  Variable lm : nmode.
+  Variable list_end : option nat.
+
+  Definition fo (o : option node) : option node := option_map f o.
+  Definition fpart (n : node) : node :=
+    match n with NList p e l => NList p e (map fo l) | _ => n end.
+
+  Lemma first_pos_map l : first_pos (map fo l) = first_pos l.
+  Proof. induction l as [|[n|] l IH]; cbn [map fo option_map first_pos]; [reflexivity|apply f_pos|exact IH]. Qed.
+  Lemma first_end_map l : first_end (map fo l) = first_end l.
+  Proof. induction l as [|[n|] l IH]; cbn [map fo option_map first_end]; [reflexivity|apply f_end|exact IH]. Qed.
+  Lemma last_end_map l : last_end (map fo l) = last_end l.
+  Proof. unfold last_end. rewrite <- map_rev. apply first_end_map. Qed.
+
+  Lemma flush_map nodes pe : flush (map fo nodes) pe = fpart (flush nodes pe).
+  Proof.
+    unfold flush, mk_nodelist. cbn [fpart]. rewrite first_pos_map, last_end_map.
+    destruct nodes; reflexivity.
+  Qed.
+
+  Lemma nonempty_map {A B} (g : A -> B) l : nonempty (map g l) = nonempty l.
+  Proof. destruct l; reflexivity. Qed.
+
+  Lemma map_fo_piece pend p chars a b :
+    map fo (pend ++ [mk_piece lm p chars a b]) = map fo pend ++ [mk_piece lm p chars a b].
+  Proof. rewrite map_app. cbn [map fo option_map mk_piece]. rewrite f_chars. reflexivity. Qed.
+
+  Lemma map_fpart_snoc parts x : map fpart (parts ++ [x]) = map fpart parts ++ [fpart x].
+  Proof. rewrite map_app. reflexivity. Qed.
+
+  Definition fres (r : sres (list node * items)) : sres (list node * items) :=
+    match r with Ok (ps, pd) => Ok (map fpart ps, map fo pd) | Exn e => Exn e end.
+
+  Lemma chars_loop_opaque p e md chars : forall fuel prev parts pend,
+    chars_loop m ms keep lm fuel (NChars p e md chars) p chars prev (map fpart parts) (map fo pend) =
+    fres (chars_loop m ms keep lm fuel (NChars p e md chars) p chars prev parts pend).
+  Proof.
+    induction fuel as [|fu IH]; intros prev parts pend; [reflexivity|].
+    cbn [chars_loop]. rewrite map_length.
+    destruct (next_split m ms (length parts) chars prev) as [[i j]|].
+    - destruct (negb (Nat.leb prev i && Nat.ltb i j)); [reflexivity|].
+      destruct (Nat.eqb prev 0).
+      + destruct (nonempty (slice chars prev i)).
+        * rewrite <- map_fo_piece, nonempty_map, flush_map.
+          destruct (nonempty (pend ++ [mk_piece lm p chars prev i]) || keep).
+          -- rewrite <- map_fpart_snoc. apply (IH j _ []).
+          -- apply (IH j _ []).
+        * rewrite nonempty_map, flush_map. destruct (nonempty pend || keep).
+          -- rewrite <- map_fpart_snoc. apply (IH j _ []).
+          -- apply (IH j _ []).
+      + destruct (nonempty (slice chars prev i)); cbn [nonempty orb].
+        * replace (map fpart parts ++ [flush [mk_piece lm p chars prev i] (Some (p + i))])
+            with (map fpart (parts ++ [flush [mk_piece lm p chars prev i] (Some (p + i))])).
+          -- apply IH.
+          -- rewrite map_fpart_snoc. f_equal. f_equal. rewrite <- flush_map.
+             cbn [map fo option_map mk_piece]. rewrite f_chars. reflexivity.
+        * destruct keep; [|apply IH].
+          replace (map fpart parts ++ [flush [] (Some (p + i))])
+            with (map fpart (parts ++ [flush [] (Some (p + i))])) by (rewrite map_fpart_snoc; reflexivity).
+          apply IH.
+    - destruct (Nat.eqb prev 0); cbn [fres].
+      + rewrite map_app. cbn [map fo option_map]. rewrite f_chars. reflexivity.
+      + destruct (nonempty (slice chars prev (length chars))); [rewrite map_fo_piece|]; reflexivity.
+  Qed.
+
+  Lemma split_loop_opaque : forall l parts pend,
+    split_loop m ms keep skipnone lm list_end (map fo l) (map fpart parts) (map fo pend) =
+    res_map (map fpart) (split_loop m ms keep skipnone lm list_end l parts pend).
+  Proof.
+    induction l as [|o l IH]; intros parts pend; cbn [map split_loop res_map].
+    - rewrite nonempty_map, flush_map. destruct (nonempty pend || keep); [rewrite map_fpart_snoc|]; reflexivity.
+    - destruct o as [nd|]; cbn [fo option_map].
+      + pose proof (f_kind nd) as K.
+        destruct nd;
+          try (destruct (f _) eqn:FE; try contradiction;
+               rewrite <- FE;
+               match goal with |- context [pend ++ [Some ?x]] =>
+                 change (map fo pend ++ [Some (f x)]) with (map fo pend ++ map fo [Some x]);
+                 rewrite <- map_app; apply IH end).
+        * rewrite f_chars. cbn [split_loop]. rewrite chars_loop_opaque.
+          destruct (chars_loop m ms keep lm (S (length chars)) (NChars p e m0 chars) p chars 0 parts pend)
+            as [[ps pd]|]; cbn [fres]; [apply IH | reflexivity].
+        * destruct (f (NList p e items)); try contradiction. reflexivity.
+      + destruct skipnone; [apply IH|].
+        change (map fo pend ++ [None]) with (map fo pend ++ map fo [None]). rewrite <- map_app. apply IH.
+  Qed.
+
+  (** C18_children_opaque *)
+  Theorem split_opaque l :
+    split_at_chars m ms keep skipnone lm list_end (map fo l) =
+    res_map (map fpart) (split_at_chars m ms keep skipnone lm list_end l).
+  Proof. unfold split_at_chars. apply (split_loop_opaque l [] []). Qed.
+End Opaque.
+
+(** a list without top-level chars nodes is never split, whatever its nodes contain *)
+Definition opaque_item (o : option node) : bool :=
+  match o with Some (NChars _ _ _ _) | Some (NList _ _ _) => false | _ => true end.
+
+Lemma split_loop_no_chars m ms keep skipnone lm list_end : forall l parts pend,
+  forallb opaque_item l = true ->
+  split_loop m ms keep skipnone lm list_end l parts pend =
+  Ok (let pend' := pend ++ live skipnone l in
+      if nonempty pend' || keep then parts ++ [flush pend' list_end] else parts).
+Proof.
+  induction l as [|o l IH]; intros parts pend H; cbn [split_loop live filter].
+  - rewrite app_nil_r. reflexivity.
+  - cbn [forallb] in H. apply andb_true_iff in H. destruct H as [H1 H2].
+    destruct o as [nd|].
+    + rewrite andb_false_r. cbn [negb].
+      destruct nd; try discriminate; rewrite IH by exact H2; unfold live; rewrite <- app_assoc; reflexivity.
+    + cbn [is_none]. rewrite andb_true_r. rewrite IH by exact H2.
+      destruct skipnone; cbn [negb]; [reflexivity|]. unfold live. rewrite <- app_assoc. reflexivity.
+Qed.
+
+Theorem split_no_chars m ms keep skipnone lm list_end l :
+  forallb opaque_item l = true ->
+  split_at_chars m ms keep skipnone lm list_end l =
+  Ok (if nonempty (live skipnone l) || keep then [flush (live skipnone l) list_end] else []).
+Proof. intros H. unfold split_at_chars. rewrite split_loop_no_chars by exact H. reflexivity. Qed.
